@@ -139,10 +139,10 @@ def real_stream(rng: random.Random, n: int, nonneg: bool = False) -> list[float]
     return out
 
 
-def float_stress_stream(rng: random.Random, n: int) -> list[float]:
+def float_stress_stream(rng: random.Random, n: int, scale=None) -> list[float]:
     """non-dyadic positives followed by exact zeros, large/small magnitudes (cancellation probes)"""
     k = rng.randint(1, max(1, n - 1))
-    scale = rng.choice([1.0, 1e-3, 1e3, 1e-8, 1e8])
+    scale = scale if scale is not None else rng.choice([1.0, 1e-3, 1e3, 1e-8, 1e8])
     return [rng.choice([0.1, 0.3, 0.7, 1.1, 2.3]) * scale for _ in range(k)] + [0.0] * (n - k)
 
 
